@@ -92,6 +92,28 @@ def run(ctx: Ctx, extended: bool = False) -> None:
                 ctx.fail(e.cid, "never_reaches_limit", f"time_limit={tl}: none of {episodes} episodes lasted until step {want} (first LAST indices {firsts})",
                          {"env": e.cid, "time_limit": tl, "first_last": firsts}, {"cls": e.cls})
             ctx.sample({"env": e.cid, "time_limit": tl, "first_last_indices": firsts})
+    # through the registry: make(id, time_limit=T) must build an environment with exactly that limit (the caller's kwargs override the registered ones)
+    import inspect
+
+    import jumanji
+    from jumanji import registration
+
+    for eid in sorted(jumanji.registered_environments()):
+        spec = registration._REGISTRY[eid]
+        cls = registration.load(spec.entry_point)
+        if "time_limit" not in inspect.signature(cls.__init__).parameters or eid.startswith("Sokoban"):
+            continue
+        for tl in (1, 3, 7, 25):
+            ctx.evaluations += 1
+            try:
+                env = jumanji.make(eid, time_limit=tl)
+            except Exception as ex:  # noqa: BLE001
+                ctx.fail(eid, "make_time_limit", f"make({eid!r}, time_limit={tl}) raises {type(ex).__name__}: {ex}", {"id": eid, "time_limit": tl}, {"cls": cls.__name__})
+                continue
+            if getattr(env, "time_limit", None) != tl:
+                ctx.fail(eid, "make_time_limit", f"make({eid!r}, time_limit={tl}) built an environment with time_limit == {getattr(env, 'time_limit', None)}",
+                         {"id": eid, "time_limit": tl, "registered_kwargs": sorted(spec.kwargs)}, {"cls": cls.__name__})
+            ctx.nontrivial.add(("make", eid, tl))
     # structural horizons of the environments without a time limit (adapters)
     envprops.run(ctx, "C11", extended)
     ctx.coverage_extra["rule"] = ("every class with a time_limit x limits {1,2,3,7,default,(None)} x episodes (mask-following and random in-spec play): index of the "
